@@ -114,3 +114,32 @@ Theorem C19_example_run :
 Proof. exact ex_run. Qed.
 Print Assumptions C19_example_run.
 
+
+(* ---- the SOURCE of the result bookkeeping (Inference._run from `results` on, add_run(s), add_bootstrap(s); translated on every run by
+   translate/inference2coq.py into gen/InferenceGen.v) is the model the theorems above are about; in addition the reported distribution
+   is always the one built from the reported parameters, and these are those of the stored result ---- *)
+From PG Require Import gen.NpInference gen.InferenceGen proofs.GenInferenceEquiv.
+Theorem C19_inference_py_run_is_the_model : forall (opt : list Q -> oresult) s n us r rs,
+  map opt (start_points (to_model s) n us) = r :: rs ->
+  run opt (to_model s) n us = to_model (Inference_run_tail s (r, rs)).
+Proof. exact gen_run_is_model_run. Qed.
+Theorem C19_inference_py_add_run_is_the_model : forall s o, omap to_model (Inference_add_run s o) = add_run (to_model s) (to_model o).
+Proof. exact gen_add_run_eq. Qed.
+Theorem C19_inference_py_add_runs_is_the_model : forall os s, omap to_model (Inference_add_runs s os) = add_runs (to_model s) (map to_model os).
+Proof. exact gen_add_runs_eq. Qed.
+Theorem C19_inference_py_add_bootstrap_is_the_model : forall s d,
+  omap to_model (Inference_add_bootstrap s (BInference d)) = add_bootstrap (to_model s) (to_model d).
+Proof. exact gen_add_bootstrap_eq. Qed.
+Theorem C19_inference_py_reported_distribution_is_built_from_reported_parameters :
+  (forall s rs, Reported (Inference_run_tail s rs)) /\
+  (forall os s s', Reported s -> Forall Reported os -> Inference_add_runs s os = Some s' -> Reported s') /\
+  (forall s d s', Reported s -> Inference_add_bootstrap s d = Some s' -> Reported s').
+Proof. split; [exact source_run_reported | split; [exact source_add_runs_reported | exact source_add_bootstrap_reported]]. Qed.
+Theorem C19_inference_py_add_run_fails_exactly_when_not_run : forall s o, Inference_add_run s o = None <-> s_loss o = None.
+Proof. exact source_add_run_fails_iff. Qed.
+Print Assumptions C19_inference_py_run_is_the_model.
+Print Assumptions C19_inference_py_add_run_is_the_model.
+Print Assumptions C19_inference_py_add_runs_is_the_model.
+Print Assumptions C19_inference_py_add_bootstrap_is_the_model.
+Print Assumptions C19_inference_py_reported_distribution_is_built_from_reported_parameters.
+Print Assumptions C19_inference_py_add_run_fails_exactly_when_not_run.
